@@ -247,6 +247,11 @@ def gen_data(r, tbl: Table, depth, probe, clsname=None, generic=False):
         f["final"] = False
         if f["type"][0] == "nt" and r.random() < 0.5:
             f["nt_override"] = r.choice(["as_list", "as_dict"])     # field override beats the class-wide option
+            genuine = (f["nt_override"] == "as_dict") != bool(cfg["nt_as_dict"])
+            if genuine and not probe and has_reset_collection(f["type"], tbl):
+                # the serializer forgets the override inside list/set/mapping elements, the schema does not
+                # (known finding schema-nt-override-in-containers): probe mode only
+                f["nt_override"] = None
         elif f["alias_ann"] is None and not contains_tvar(f["type"]) and r.random() < 0.08:
             f["final"] = True
     d = {"kind": "data", "name": name, "clsname": clsname or name, "fields": fields, "tvars": tvars, "cfg": cfg}
@@ -282,6 +287,39 @@ def gen_td(r, tbl, depth, probe):
     d = {"kind": "td", "name": name, "clsname": name, "total": total, "fields": fields}
     tbl.add(d)
     return d
+
+
+def nullable_spec(t) -> bool:
+    """the serializer's notion of a nullable field type (only those get the `is not None` test under
+    omit_none): Any, None, Optional / Union with a direct None member -- not Literal[None]"""
+    while t[0] == "newtype":
+        t = t[1]
+    if t[0] in ("any", "none", "opt"):
+        return True
+    if t[0] == "union":
+        return any(m[0] in ("none", "any", "opt") or (m[0] == "union" and nullable_spec(m)) for m in t[1])
+    return False
+
+
+def has_reset_collection(t, tbl, seen=None) -> bool:
+    """does the type tree (through named tuples / typed dicts, not through dataclasses) contain a
+    list / set / mapping constructor"""
+    seen = set() if seen is None else seen
+    if t[0] in ("list", "seq", "deque", "set", "frozenset", "dict", "mapping", "ordereddict", "defaultdict", "counter", "chainmap"):
+        return True
+    if t[0] in ("nt", "td"):
+        if t[1] in seen:
+            return False
+        seen.add(t[1])
+        return any(has_reset_collection(f["type"], tbl, seen) for f in tbl.by_name[t[1]]["fields"])
+    if t[0] in ("data", "gdata"):
+        return False
+    for x in t[1:]:
+        if isinstance(x, tuple) and has_reset_collection(x, tbl, seen):
+            return True
+        if isinstance(x, list) and any(isinstance(y, tuple) and has_reset_collection(y, tbl, seen) for y in x):
+            return True
+    return False
 
 
 def contains_tvar(t):
